@@ -15,6 +15,7 @@
 #include <poll.h>
 #include <signal.h>
 #include <string.h>
+#include <sys/resource.h>
 #include <sys/socket.h>
 #include <sys/stat.h>
 #include <sys/time.h>
@@ -140,6 +141,9 @@ ssize_t __real_write(int, const void*, size_t);
 int __real_close(int);
 int __real_gettimeofday(struct timeval*, void*);
 int __real_pipe(int[2]);
+int __real_pipe2(int[2], int);
+int __real_ppoll(struct pollfd*, nfds_t, const struct timespec*, const sigset_t*);
+pid_t __real_wait4(pid_t, int*, int, struct rusage*);
 }
 
 namespace {
@@ -498,6 +502,31 @@ int __wrap_pipe(int fds[2]) {
   g.pipe_fd_order.push_back(fds[0]);
   g.pipe_fd_order.push_back(fds[1]);
   return r;
+}
+
+int __wrap_pipe2(int fds[2], int flags) {
+  int r = __real_pipe2(fds, flags);
+  if (!g.armed || r) return r;
+  if (g.pipe_capacity) fcntl(fds[1], F_SETPIPE_SZ, (int)g.pipe_capacity);
+  g.parent_pipe_fds.insert(fds[0]);
+  g.parent_pipe_fds.insert(fds[1]);
+  g.pipe_fd_order.push_back(fds[0]);
+  g.pipe_fd_order.push_back(fds[1]);
+  return r;
+}
+
+int __wrap_poll(struct pollfd* pfds, nfds_t n, int timeout_ms);
+int __wrap_ppoll(struct pollfd* pfds, nfds_t n, const struct timespec* ts, const sigset_t* mask) {
+  if (!g.armed) return __real_ppoll(pfds, n, ts, mask);
+  int ms = ts ? (int)(ts->tv_sec * 1000 + (ts->tv_nsec + 999999) / 1000000) : -1;
+  return __wrap_poll(pfds, n, ms);
+}
+
+pid_t __wrap_waitpid(pid_t pid, int* status, int options);
+pid_t __wrap_wait4(pid_t pid, int* status, int options, struct rusage* ru) {
+  if (!g.armed || pid != g.ch.pid) return __real_wait4(pid, status, options, ru);
+  if (ru) memset(ru, 0, sizeof(*ru));
+  return __wrap_waitpid(pid, status, options);
 }
 
 int __wrap_poll(struct pollfd* pfds, nfds_t n, int timeout_ms) {
@@ -1175,7 +1204,7 @@ void scen_run_process() {
   uint64_t t_end = g.clock;
   add_sim_time_us(0);
   Child& c = g.ch;
-  if (g.fork_count != 1) harness_bug("run_process did not fork exactly once");
+  if (g.fork_count != 1) harness_bug("run_process did not create its child through fork() exactly once: this engine can only schedule a child it sees being forked (vfork, posix_spawn and clone are outside the seam, DESIGN.md 10)");
 
   // what is left behind (always cleaned up, judged only if nothing else failed)
   std::set<int> fds_after = open_fds();
